@@ -422,6 +422,17 @@ for _pid in ENGINE_STREAMS:
 
 
 def replay(ctx, K, plan, path):
+    """re-run a stored replay on the current tree; engine histories are executed with all oracles on"""
     data = json.load(open(path))
-    print(json.dumps(data, indent=1)[:4000])
+    rp = data.get("replay") or {}
+    if isinstance(rp, dict) and rp.get("ops_json"):
+        b = K.go_build(ctx, "incrtrace")
+        if not b:
+            return 2
+        rc, out = K.sh([b, "-replay", path, "-claim", ctx.pid], 600, cwd=ctx.workdir, env=K.GOENV)
+        print(out)
+        print("replay of %s on the current tree: %s" % (path, "the oracles still complain" if rc else "no complaint"))
+        return rc
+    print(json.dumps(data, indent=1)[:6000])
+    print("(this replay names a proof obligation / correspondence, or belongs to a component harness: re-run `bin/check %s`)" % ctx.pid)
     return 0
